@@ -142,11 +142,11 @@ impl TxAnalyzer {
         let n = self.nframes;
         self.nframes += 1;
         self.max_frame = self.max_frame.max(frame.len());
-        if frame.len() > 127 {
-            return efail("egress:frame-exceeds-127-octets", format!("frame of {} octets handed to the IEEE 802.15.4 device", frame.len()));
-        }
+        // aMaxPHYPacketSize is 127 octets INCLUDING the two FCS octets, which frames handed to the
+        // device do not carry: 125 is what fits (and what the stack's own size arithmetic uses)
         if frame.len() > 125 {
             self.over125 += 1;
+            return efail("egress:frame-exceeds-125-octets", format!("frame of {} octets handed to the IEEE 802.15.4 device (127 minus the 2-octet FCS = 125 fit a frame)", frame.len()));
         }
         let (mac, hl) = match decode_mac(frame) {
             Ok(x) => x,
